@@ -103,6 +103,17 @@ fn hist_n<const MAX: usize>(h: &Hist, obs: &mut Obs) -> CaseResult {
     }
     let c = g.clone();
     ensure_eq!(raw_entries(&c), model.clone(), "clone()");
+    if h.load_at == 11 && MAX <= 9 {
+        // load() on a 'static table
+        let st: &'static GlobalDescriptorTable<MAX> = Box::leak(Box::new(g.clone()));
+        let cp = cpu();
+        cp.reset();
+        st.load();
+        let log = cp.take_log();
+        ensure!(log.len() == 1 && log[0].op == Op::Lgdt, "load() executed {:x?}", log);
+        ensure_eq!((log[0].b as usize, log[0].c), (8 * model.len() - 1, st.entries().as_ptr() as u64), "lgdt operand of load()");
+        cp.reset();
+    }
     ensure_eq!(c.limit(), g.limit(), "clone() limit");
     obs.add_evals(h.apps.len() as u64);
     obs.label(format!("MAX={}", MAX));
